@@ -237,24 +237,8 @@ func (P *Program) applyRenames(baseline map[string]bool) {
 	if P.ModPath != "gopkg.in/typ.v4" || len(baseline) == 0 {
 		return
 	}
-	shape := func(fi *FuncInfo) string {
-		sig := fi.Obj.Type().(*types.Signature)
-		var sb strings.Builder
-		i := strings.LastIndex(fi.Name, ".")
-		sb.WriteString(fi.Name[:i+1]) // package and receiver
-		q := func(*types.Package) string { return "" }
-		for k := 0; k < sig.Params().Len(); k++ {
-			sb.WriteString("|" + types.TypeString(sig.Params().At(k).Type(), q))
-		}
-		sb.WriteString("->")
-		for k := 0; k < sig.Results().Len(); k++ {
-			sb.WriteString("|" + types.TypeString(sig.Results().At(k).Type(), q))
-		}
-		if sig.Variadic() {
-			sb.WriteString("...")
-		}
-		return sb.String()
-	}
+	shape := funcShape
+	baseShapes := baselineShapes()
 	byShape := map[string][]*FuncInfo{}
 	for _, fi := range P.Funcs {
 		if !baseline[fi.Name] && !fi.Obj.Exported() {
@@ -298,7 +282,28 @@ func (P *Program) applyRenames(baseline map[string]bool) {
 			}
 		}
 		if len(cands) != 1 || competitors != 1 {
-			continue
+			// several helpers of one receiver renamed at once: tell them apart by their signatures, which the
+			// baseline records - one new function and one missing name per (receiver, signature)
+			want, known := baseShapes[name]
+			if !known {
+				continue
+			}
+			var same []*FuncInfo
+			for _, fi := range cands {
+				if shape(fi) == want {
+					same = append(same, fi)
+				}
+			}
+			rivals := 0
+			for _, m := range missing {
+				if baseShapes[m] == want {
+					rivals++
+				}
+			}
+			if len(same) != 1 || rivals != 1 {
+				continue
+			}
+			cands = same
 		}
 		fi := cands[0]
 		used[fi] = true
@@ -466,4 +471,48 @@ func (P *Program) ListFields() []string {
 	}
 	sort.Strings(out)
 	return out
+}
+
+//go:embed baseline_sigs.txt
+var baselineSigsTxt string
+
+// baselineShapes: name -> receiver-and-signature shape of every function of the tree the rules were written against
+// (regenerate with `typcheck -listsigs`).
+func baselineShapes() map[string]string {
+	m := map[string]string{}
+	for _, l := range strings.Split(baselineSigsTxt, "\n") {
+		if i := strings.Index(l, "\t"); i > 0 {
+			m[l[:i]] = strings.TrimSpace(l[i+1:])
+		}
+	}
+	return m
+}
+
+// ListSigs prints name<TAB>shape for every function (to regenerate baseline_sigs.txt).
+func (P *Program) ListSigs() []string {
+	var out []string
+	for _, fi := range P.Funcs {
+		out = append(out, fi.Name+"\t"+funcShape(fi))
+	}
+	sort.Strings(out)
+	return out
+}
+
+func funcShape(fi *FuncInfo) string {
+	sig := fi.Obj.Type().(*types.Signature)
+	var sb strings.Builder
+	i := strings.LastIndex(fi.Name, ".")
+	sb.WriteString(fi.Name[:i+1]) // package and receiver
+	q := func(*types.Package) string { return "" }
+	for k := 0; k < sig.Params().Len(); k++ {
+		sb.WriteString("|" + types.TypeString(sig.Params().At(k).Type(), q))
+	}
+	sb.WriteString("->")
+	for k := 0; k < sig.Results().Len(); k++ {
+		sb.WriteString("|" + types.TypeString(sig.Results().At(k).Type(), q))
+	}
+	if sig.Variadic() {
+		sb.WriteString("...")
+	}
+	return sb.String()
 }
